@@ -14,7 +14,7 @@
 //   FN name n | x,.. = f | g,..             one benchmark-function evaluation
 //   CN kind n | params | x,.. = f | g,..    one constraint evaluation
 //   FAIL clause object | details            direct property violation on the implementation
-//   PROBE name | ...                        directed probes of the two declarations examined first (see notes/C06.md)
+//   PROBE name | ...                        directed probes: linear strong convexity (known finding), cb3 exact ties, non-symmetric P
 //   DONE ...
 #include "common.h"
 #include <algorithm>
@@ -636,10 +636,13 @@ void constraint_families(vh::rng_t& rng)
             if (pmode == 2) P.matrix() = -P.matrix();
             // non-symmetric P (compatible() accepts any square matrix): triangular with a positive diagonal, so that the
             // eigenvalues of P are positive whatever the symmetric part looks like
+            // (large off-diagonal: the symmetric part is usually indefinite; small: positive definite but with a smaller least
+            // eigenvalue than the least diagonal entry = least eigenvalue of P)
             const bool nonsym = pmode == 3 && n > 1 && (ikind == 7 || ikind == 8);
+            const auto nsfactor = (rep % 4 < 2) ? 4.0 : 0.125;
             if (nonsym)
                 for (tensor_size_t i = 0; i < n; ++i)
-                    for (tensor_size_t j = 0; j < n; ++j) P(i, j) = (j < i) ? 0.0 : (i == j ? 0.25 + std::fabs(B(i, j)) : 4.0 * B(i, j));
+                    for (tensor_size_t j = 0; j < n; ++j) P(i, j) = (j < i) ? 0.0 : (i == j ? 0.25 + std::fabs(B(i, j)) : nsfactor * B(i, j));
             const auto r      = rnd();
             const auto radius = 0.25 + 2.0 * rng.unit();
             const auto dim    = static_cast<tensor_size_t>(rng.range(0, n - 1));
@@ -913,36 +916,68 @@ void probes()
                 " f(x)+g.(z-x)+mu/2|z-x|^2=" + vh::hexf(rhs) + " | " + ((fz >= rhs - 1e-12) ? "holds" : "violated"));
         }
     }
-    // (3) quadratic constraints declare convexity / strong convexity from the eigenvalues of P itself: P = [[1,4],[0,1]] has the
-    //     eigenvalues 1, 1 but 1/2 x'Px = 1/2 (x1^2 + 4 x1 x2 + x2^2) is indefinite
+    // (3) quadratic constraints: convexity / strong convexity must be decided by the SYMMETRIC part of P (fixed in /repo 3feb922;
+    //     before, the eigenvalues of P itself were used). P = [[1,4],[0,1]]: eigenvalues 1, 1 but 1/2 x'Px is indefinite;
+    //     P = [[2,1],[0,2]]: eigenvalues 2, 2 but the form is only 1.5-strongly convex; P = [[1,3],[-3,1]]: complex eigenvalues
+    //     1 +- 3i, symmetric part = identity
     {
-        matrix_t P(2, 2);
-        P(0, 0) = 1.0, P(0, 1) = 4.0, P(1, 0) = 0.0, P(1, 1) = 1.0;
-        vector_t q(2), x(2), z(2), g(2);
-        q.full(0.0);
-        x(0) = 1.0, x(1) = -1.0;
-        z(0) = 0.0, z(1) = 0.0;
-        const constraint_t c = constraint::quadratic_inequality_t{{P, q, 0.0}};
-        const auto fx = ::nano::vgrad(c, x, g), fz = ::nano::vgrad(c, z);
-        const auto mu  = ::nano::strong_convexity(c);
-        const auto rhs = fx + g.dot(z - x) + 0.5 * mu * (z - x).squaredNorm();
-        const bool declared = ::nano::convex(c);
-        out(std::string("PROBE quadratic-nonsymmetric | P=[[1,4],[0,1]] q=0 r=0 x=(1,-1) z=(0,0) | convex=") + (declared ? "1" : "0") + " mu=" + vh::hexf(mu) +
-            " f(x)=" + vh::hexf(fx) + " g=[" + vh::hexf(g(0)) + "," + vh::hexf(g(1)) + "] f(z)=" + vh::hexf(fz) + " f(x)+g.(z-x)+mu/2|z-x|^2=" + vh::hexf(rhs) +
-            " | " + ((!declared || fz >= rhs - 1e-12) ? "holds" : "violated"));
+        struct qp_t
+        {
+            const char* name;
+            double      p00, p01, p10, p11, x0, x1, z0, z1;
+        };
+        const qp_t qps[] = {{"[[1,4],[0,1]]", 1, 4, 0, 1, 1, -1, 0, 0},   {"[[1,4],[0,1]]", 1, 4, 0, 1, 0, 0, 1, -1},
+                            {"[[2,1],[0,2]]", 2, 1, 0, 2, 0, 0, 1, -1},   {"[[2,1],[0,2]]", 2, 1, 0, 2, 0.5, 0.25, -1, 1},
+                            {"[[1,3],[-3,1]]", 1, 3, -3, 1, 0, 0, 1, 1},  {"[[0.25,-8],[0,0.5]]", 0.25, -8, 0, 0.5, 1, 1, 0, 0}};
+        for (const auto& qp : qps)
+        {
+            matrix_t P(2, 2);
+            P(0, 0) = qp.p00, P(0, 1) = qp.p01, P(1, 0) = qp.p10, P(1, 1) = qp.p11;
+            vector_t q(2), x(2), z(2), g(2);
+            q.full(0.0);
+            x(0) = qp.x0, x(1) = qp.x1;
+            z(0) = qp.z0, z(1) = qp.z1;
+            for (int eq = 0; eq < 2; ++eq)
+            {
+                const constraint_t c = eq ? constraint_t{constraint::quadratic_equality_t{{P, q, 0.0}}} : constraint_t{constraint::quadratic_inequality_t{{P, q, 0.0}}};
+                const auto fx = ::nano::vgrad(c, x, g), fz = ::nano::vgrad(c, z);
+                const auto mu  = ::nano::strong_convexity(c);
+                const auto rhs = fx + g.dot(z - x) + 0.5 * mu * (z - x).squaredNorm();
+                const bool declared = ::nano::convex(c);
+                out(std::string("PROBE quadratic-nonsymmetric | ") + (eq ? "quadratic-eq" : "quadratic-ineq") + " P=" + qp.name + " q=0 r=0 x=(" + vh::hexf(qp.x0) + "," +
+                    vh::hexf(qp.x1) + ") z=(" + vh::hexf(qp.z0) + "," + vh::hexf(qp.z1) + ") | convex=" + (declared ? "1" : "0") + " mu=" + vh::hexf(mu) + " f(x)=" + vh::hexf(fx) +
+                    " g=[" + vh::hexf(g(0)) + "," + vh::hexf(g(1)) + "] f(z)=" + vh::hexf(fz) + " f(x)+g.(z-x)+mu/2|z-x|^2=" + vh::hexf(rhs) + " | " +
+                    ((!declared || fz >= rhs - 1e-12) ? "holds" : "violated"));
+            }
+        }
     }
-    // (2) chained CB3: `if (v1 > max(v2, v3)) ... else if (v2 > max(v1, v3)) ... else <gradient of v3>`: on an exact tie
-    //     v1 == v2 > v3 the gradient of the *inactive* piece v3 is returned
+    // (2) chained CB3 (fixed in /repo 114b02b: `>=`): on an exact tie v1 == v2 > v3 the gradient of an ACTIVE piece must be returned
+    //     (before: `if (v1 > max(v2, v3)) ... else if (v2 > max(v1, v3)) ... else <gradient of v3>` returned the inactive v3).
+    //     Exact ties in double arithmetic: (2,-3): 25 = 25; (3,-19): 442 = 442; (2.5,-8.703125): 114.806884765625 on both sides
     for (const char* id : {"chained_cb3I", "chained_cb3II"})
     {
-        const auto f = function_t::all().get(id)->make(2, 1);
-        vector_t   x(2), z(2), g(2);
-        x(0) = 2.0, x(1) = -3.0;
-        z(0) = 2.0, z(1) = -2.0;
-        const auto fx = f->vgrad(x, g), fz = f->vgrad(z);
-        const auto rhs = fx + g.dot(z - x);
-        out(std::string("PROBE cb3-tie | fn=") + id + "[2D] x=(2,-3) z=(2,-2) | convex=" + (f->convex() ? "1" : "0") + " f(x)=" + vh::hexf(fx) + " g=[" +
-            vh::hexf(g(0)) + "," + vh::hexf(g(1)) + "] f(z)=" + vh::hexf(fz) + " f(x)+g.(z-x)=" + vh::hexf(rhs) + " | " + ((fz >= rhs - 1e-12) ? "holds" : "violated"));
+        const double ties[][2] = {{2.0, -3.0}, {3.0, -19.0}, {2.5, -8.703125}};
+        for (const auto& tie : ties)
+            for (int dims = 2; dims <= 3; ++dims)
+            {
+                // cb3II compares the SUMS: a third coordinate would break the tie, cb3I works pair by pair
+                if (dims == 3 && std::string(id) == "chained_cb3II") continue;
+                const auto f = function_t::all().get(id)->make(dims, 1);
+                vector_t   x(dims), g(dims);
+                x(0) = tie[0], x(1) = tie[1];
+                if (dims == 3) x(2) = 0.5;
+                const auto fx = f->vgrad(x, g);
+                for (int k = 0; k < 2 * dims; ++k)
+                {
+                    vector_t z = x;
+                    z(k / 2) += (k % 2) ? -1.0 : +1.0;
+                    const auto fz  = f->vgrad(z);
+                    const auto rhs = fx + g.dot(z - x);
+                    out(std::string("PROBE cb3-tie | fn=") + id + "[" + std::to_string(dims) + "D] x=[" + fl(tovec(x)) + "] z=[" + fl(tovec(z)) + "] | convex=" +
+                        (f->convex() ? "1" : "0") + " f(x)=" + vh::hexf(fx) + " g=[" + fl(tovec(g)) + "] f(z)=" + vh::hexf(fz) + " f(x)+g.(z-x)=" + vh::hexf(rhs) + " | " +
+                        ((!f->convex() || fz >= rhs - 1e-9 * (1.0 + std::fabs(fz))) ? "holds" : "violated"));
+                }
+            }
     }
 }
 } // namespace
